@@ -1,4 +1,280 @@
-import TTModel.C07_Torch
-/-! C07 — torch transforms: theorems (in progress) -/
+import TTProofs.Lemmas.C07_TorchCalc
+import TTProofs.Lemmas.C07_Stick
+/-!
+# C07 — the torch transforms reachable from generated configurations
+
+Theorems about `TTModel/C07_Torch.lean` (forward / inverse / `log_abs_det_jacobian` as
+`torch/distributions/transforms.py` writes them; the Float run of the same definitions is compared
+with torch itself by `harness/c07_torch.py`). Element-wise transforms report the log-Jacobian per
+entry: `reported = Real.log |deriv forward x|`. Domains are stated explicitly: the clipping of the
+sigmoid must be inactive (`lo < σ(x) < hi`, true for |x| < 36 with torch's constants) and
+`F.softplus`'s linear shortcut must not be taken (`x < 20`, resp. `|x| ≤ 20`).
+-/
 namespace TTProps.C07Torch
+open TT TT.C07 TT.C07.Torch
+
+/-! ## ExpTransform -/
+
+theorem exp_reported_eq_true (x : ℝ) :
+    expLd x (expFwd x) = Real.log |deriv (fun t => expFwd t) x| := by
+  have : deriv (fun t : ℝ => expFwd t) x = Real.exp x := (Real.hasDerivAt_exp x).deriv
+  rw [this, abs_of_pos (Real.exp_pos x), Real.log_exp]; rfl
+
+theorem exp_inv_fwd (x : ℝ) : expInv (expFwd x) = x := Real.log_exp x
+
+/-- `ExpTransform().inv` (the log transform): reported `-y`, true `log|1/x|` -/
+theorem exp_inv_reported_eq_true (x : ℝ) (hx : 0 < x) :
+    invLd expLd x (expInv x) = Real.log |deriv (fun t => expInv t) x| := by
+  have : deriv (fun t : ℝ => expInv t) x = x⁻¹ := (Real.hasDerivAt_log (ne_of_gt hx)).deriv
+  rw [this, abs_of_pos (inv_pos.mpr hx), Real.log_inv]; rfl
+
+/-! ## SigmoidTransform -/
+
+theorem sigmoidFwd_eventually {lo hi x : ℝ} (h1 : lo < sigm x) (h2 : sigm x < hi) :
+    ∀ᶠ t in nhds x, sigmoidFwd lo hi t = sigm t := by
+  have hopen : IsOpen {t : ℝ | lo < sigm t ∧ sigm t < hi} :=
+    (isOpen_lt continuous_const continuous_sigm).inter (isOpen_lt continuous_sigm continuous_const)
+  filter_upwards [hopen.mem_nhds (show x ∈ {t : ℝ | lo < sigm t ∧ sigm t < hi} from ⟨h1, h2⟩)] with t ht
+  unfold sigmoidFwd
+  rw [sigmoid_eq_sigm, clamp_of_mem (le_of_lt ht.1) (le_of_lt ht.2)]
+
+/-- **sigmoid_reported_eq_true**: `-softplus(-x) - softplus(x) = log |σ'(x)|` wherever the clipping is
+inactive and `|x| ≤ 20` -/
+theorem sigmoid_reported_eq_true {lo hi x : ℝ} (h1 : lo < sigm x) (h2 : sigm x < hi) (hx : |x| ≤ 20) :
+    sigmoidLd x (sigmoidFwd lo hi x) = Real.log |deriv (fun t => sigmoidFwd lo hi t) x| := by
+  have hd : HasDerivAt (fun t => sigmoidFwd lo hi t) (sigm x * (1 - sigm x)) x :=
+    (hasDerivAt_sigm x).congr_of_eventuallyEq (sigmoidFwd_eventually h1 h2)
+  have hpos : 0 < sigm x * (1 - sigm x) := mul_pos (sigm_pos x) (by linarith [sigm_lt_one x])
+  rw [hd.deriv, abs_of_pos hpos, Real.log_mul (ne_of_gt (sigm_pos x)) (by linarith [sigm_lt_one x]),
+    log_sigm, log_one_sub_sigm]
+  obtain ⟨ha, hb⟩ := abs_le.mp hx
+  unfold sigmoidLd
+  rw [softplusT_of_le (by linarith : -x ≤ 20), softplusT_of_le hb]
+  ring
+
+theorem sigmoid_inv_fwd {lo hi x : ℝ} (h1 : lo ≤ sigm x) (h2 : sigm x ≤ hi) :
+    sigmoidInv lo hi (sigmoidFwd lo hi x) = x := by
+  unfold sigmoidInv sigmoidFwd
+  rw [sigmoid_eq_sigm, clamp_of_mem h1 h2, clamp_of_mem h1 h2]
+  simp only [trans_log_real]
+  rw [← sub_eq_add_neg]
+  exact logit_sigm x
+
+/-! ## AffineTransform (event_dim 0) -/
+
+theorem affine_reported_eq_true (loc scale x : ℝ) :
+    affineLd scale x (affineFwd loc scale x) = Real.log |deriv (fun t => affineFwd loc scale t) x| := by
+  have : deriv (fun t : ℝ => affineFwd loc scale t) x = scale := by
+    have h := ((hasDerivAt_id x).const_mul scale).const_add loc
+    simpa [affineFwd] using h.deriv
+  rw [this]
+  simp [affineLd, absS_real]
+
+theorem affine_inv_fwd (loc scale x : ℝ) (hs : scale ≠ 0) :
+    affineInv loc scale (affineFwd loc scale x) = x := by
+  unfold affineInv affineFwd
+  field_simp
+  ring
+
+/-- `AffineTransform(loc, scale).inv`: reported `-log|scale|`, true `log|1/scale|` -/
+theorem affine_inv_reported_eq_true (loc scale y : ℝ) (hs : scale ≠ 0) :
+    invLd (affineLd scale) y (affineInv loc scale y)
+      = Real.log |deriv (fun t => affineInv loc scale t) y| := by
+  have : deriv (fun t : ℝ => affineInv loc scale t) y = scale⁻¹ := by
+    have h := ((hasDerivAt_id y).sub_const loc).div_const scale
+    simpa [affineInv] using h.deriv
+  rw [this, abs_inv, Real.log_inv]
+  simp [invLd, affineLd, absS_real]
+
+/-! ## SoftplusTransform -/
+
+/-- **softplus_reported_eq_true** below the threshold of `F.softplus` -/
+theorem softplus_reported_eq_true {x : ℝ} (h1 : x < 20) (h2 : -20 ≤ x) :
+    softplusLdT x (softplusFwdT x) = Real.log |deriv (fun t => softplusFwdT t) x| := by
+  have hev : ∀ᶠ t in nhds x, softplusFwdT t = softplus t := by
+    filter_upwards [(isOpen_Iio (a := (20 : ℝ))).mem_nhds h1] with t ht
+    exact softplusT_of_le (le_of_lt ht)
+  have hd : HasDerivAt (fun t => softplusFwdT t) (sigm x) x :=
+    (hasDerivAt_softplus x).congr_of_eventuallyEq hev
+  rw [hd.deriv, abs_of_pos (sigm_pos x), log_sigm]
+  unfold softplusLdT
+  rw [softplusT_of_le (by linarith : -x ≤ 20)]
+
+theorem softplus_inv_fwd {x : ℝ} (h1 : x ≤ 20) : softplusInvT (softplusFwdT x) = x := by
+  unfold softplusInvT softplusFwdT
+  rw [softplusT_of_le h1]
+  simp only [trans_exp_real, trans_log_real]
+  have hs : -(Real.exp (-softplus x) - 1) = sigm x := by
+    rw [softplus_real, Real.exp_neg, Real.exp_log (one_add_exp_pos x)]
+    unfold sigm
+    have hne : 1 + Real.exp x ≠ 0 := ne_of_gt (one_add_exp_pos x)
+    field_simp
+    ring
+  rw [hs]
+  have := logit_sigm x
+  rw [log_one_sub_sigm] at this
+  linarith
+
+/-! ## PowerTransform -/
+
+theorem power_reported_eq_true {e x : ℝ} (hx : 0 < x) :
+    powerLd e x (powerFwd e x) = Real.log |deriv (fun t => powerFwd e t) x| := by
+  have hd : HasDerivAt (fun t : ℝ => powerFwd e t) (e * x ^ (e - 1)) x :=
+    Real.hasDerivAt_rpow_const (Or.inl (ne_of_gt hx))
+  rw [hd.deriv]
+  unfold powerLd powerFwd
+  simp only [trans_pow_real, trans_log_real, absS_real]
+  rw [Real.rpow_sub_one (ne_of_gt hx), mul_div_assoc]
+
+theorem power_inv_fwd {e x : ℝ} (hx : 0 < x) (he : e ≠ 0) : powerInv e (powerFwd e x) = x := by
+  unfold powerInv powerFwd
+  simp only [trans_pow_real, one_div]
+  exact Real.rpow_rpow_inv (le_of_lt hx) he
+
+/-! ## `_InverseTransform` (generic) -/
+
+/-- **inv_wrapper_reported_eq_true**: for any element-wise transform `f` with reported log-Jacobian `ld`
+that is correct at the pre-image `g y`, the wrapper `t.inv` reports `-ld(g y, y)`, which is the
+log-derivative of the inverse map `g` at `y`. -/
+theorem inv_wrapper_reported_eq_true (f g : ℝ → ℝ) (ld : ℝ → ℝ → ℝ) (y d : ℝ)
+    (hf : HasDerivAt f d (g y)) (hd : d ≠ 0) (hrep : ld (g y) (f (g y)) = Real.log |d|)
+    (hfg_at : f (g y) = y) (hg : ContinuousAt g y) (hfg : ∀ᶠ z in nhds y, f (g z) = z) :
+    invLd ld y (g y) = Real.log |deriv g y| := by
+  have h := inv_logderiv (f := f) (g := g) (x := g y) hf hd (by rw [hfg_at]; exact hg)
+    (by rw [hfg_at]) (by rw [hfg_at]; exact hfg)
+  rw [hfg_at] at h
+  rw [h]
+  unfold invLd
+  rw [← hrep, hfg_at]
+
+/-- the hypotheses are met, e.g., by `ExpTransform().inv` at every `y > 0` -/
+example (y : ℝ) (hy : 0 < y) : invLd expLd y (Real.log y) = Real.log |deriv Real.log y| :=
+  inv_wrapper_reported_eq_true Real.exp Real.log expLd y (Real.exp (Real.log y))
+    (Real.hasDerivAt_exp _) (ne_of_gt (Real.exp_pos _))
+    (by rw [abs_of_pos (Real.exp_pos _), Real.log_exp]; rfl)
+    (Real.exp_log hy) (Real.continuousAt_log (ne_of_gt hy))
+    (by filter_upwards [(isOpen_Ioi (a := (0 : ℝ))).mem_nhds hy] with z hz; exact Real.exp_log hz)
+
+/-! ## ComposeTransform (element-wise parts) -/
+
+/-- along the chain every part is differentiable with non-zero derivative and reports its true
+log-derivative at the point it is evaluated at -/
+def ChainOK : List (Torch.Part ℝ) → ℝ → Prop
+  | [], _ => True
+  | p :: ps, x =>
+      (∃ d, HasDerivAt p.fwd d x ∧ d ≠ 0 ∧ p.ld x (p.fwd x) = Real.log |d|) ∧ ChainOK ps (p.fwd x)
+
+theorem composeFwd_cons (p : Torch.Part ℝ) (ps : List (Torch.Part ℝ)) :
+    composeFwd (p :: ps) = composeFwd ps ∘ p.fwd := by
+  funext x; simp [composeFwd]
+
+/-- **compose_reported_eq_true**: the sum of the parts' reported terms along the chain is the
+log-derivative of the composed map -/
+theorem compose_reported_eq_true (ps : List (Torch.Part ℝ)) (x : ℝ) (h : ChainOK ps x) :
+    (∃ D, HasDerivAt (composeFwd ps) D x ∧ D ≠ 0 ∧ composeLd ps x = Real.log |D|) := by
+  induction ps generalizing x with
+  | nil =>
+    refine ⟨1, ?_, one_ne_zero, by simp [composeLd]⟩
+    have : composeFwd ([] : List (Torch.Part ℝ)) = id := by funext x; simp [composeFwd]
+    rw [this]; exact hasDerivAt_id x
+  | cons p ps ih =>
+    obtain ⟨⟨d, hd, hne, hrep⟩, hrest⟩ := h
+    obtain ⟨D, hD, hDne, hDrep⟩ := ih (p.fwd x) hrest
+    refine ⟨D * d, ?_, mul_ne_zero hDne hne, ?_⟩
+    · rw [composeFwd_cons]; exact hD.comp x hd
+    · simp only [composeLd]
+      rw [hrep, hDrep, abs_mul, Real.log_mul (abs_ne_zero.mpr hDne) (abs_ne_zero.mpr hne)]
+      ring
+
+theorem compose_reported_eq_deriv (ps : List (Torch.Part ℝ)) (x : ℝ) (h : ChainOK ps x) :
+    composeLd ps x = Real.log |deriv (composeFwd ps) x| := by
+  obtain ⟨D, hD, _, hrep⟩ := compose_reported_eq_true ps x h
+  rw [hD.deriv, hrep]
+
+/-- the chain the CLI builds for a lower bound `loc ≠ 0`: `AffineTransform(loc, 1.0)` after
+`ExpTransform` satisfies `ChainOK` at every point -/
+theorem cli_lower_bound_chain_ok (loc x : ℝ) :
+    ChainOK [⟨expFwd, expLd⟩, ⟨affineFwd loc 1, affineLd 1⟩] x := by
+  refine ⟨⟨Real.exp x, Real.hasDerivAt_exp x, ne_of_gt (Real.exp_pos x), ?_⟩,
+    ⟨1, ?_, one_ne_zero, ?_⟩, trivial⟩
+  · rw [abs_of_pos (Real.exp_pos x), Real.log_exp]; rfl
+  · have h := ((hasDerivAt_id (expFwd x)).const_mul (1 : ℝ)).const_add loc
+    have e : (fun t : ℝ => loc + 1 * id t) = affineFwd loc 1 := by funext t; simp [affineFwd]
+    rw [e] at h
+    simpa using h
+  · simp [affineLd, absS_real]
+
+
+/-! ## StickBreakingTransform -/
+section stick
+variable {lo hi : ℝ} {n : ℕ}
+
+/-- the first `n` coordinates of the image (the free coordinates of the simplex) as a map `ℝⁿ → ℝⁿ` -/
+noncomputable def stickMap (lo hi : ℝ) (n : ℕ) : (Fin n → ℝ) → Fin n → ℝ := lift (sbFwd lo hi n)
+
+/-- **stick_reported_eq_true**: `(-u + logsigmoid(u) + log y[:-1]).sum(-1)`, `u = x − log(offset)`, is the
+true `log|det J|` of the stick-breaking map wherever the sigmoid's clipping is inactive. The Jacobian is
+lower triangular (`y_i` depends on `x_j`, `j ≤ i`) with diagonal `z_i (1 − z_i) Π_{j<i} (1 − z_j)`. -/
+theorem stick_reported_eq_true (x : Fin n → ℝ) (h : Unclipped lo hi n (ext x)) :
+    sbLd n (ext x) (sbFwd lo hi n (ext x)) = Real.log |(jac (stickMap lo hi n) x).det| := by
+  have hlow : LowerDep (stickMap lo hi n) := by
+    intro i j hij y t
+    simp only [stickMap, lift, ext_update]
+    exact sbFwd_dep (ext y) hij j.isLt t
+  have hd : ∀ i : Fin n, HasDerivAt (fun t => stickMap lo hi n (Function.update x i t) i)
+      (sigm (sbU n (ext x) i) * (1 - sigm (sbU n (ext x) i)) * sbC lo hi n (ext x) i) (x i) := by
+    intro i
+    have := sbFwd_diag h i.isLt
+    simp only [stickMap, lift, ext_update]
+    simpa using this
+  have hz : ∀ i : Fin n, 0 < sigm (sbU n (ext x) i) ∧ 0 < 1 - sigm (sbU n (ext x) i) :=
+    fun i => ⟨sigm_pos _, by linarith [sigm_lt_one (sbU n (ext x) i)]⟩
+  have hpos : ∀ i : Fin n,
+      0 < sigm (sbU n (ext x) i) * (1 - sigm (sbU n (ext x) i)) * sbC lo hi n (ext x) i :=
+    fun i => mul_pos (mul_pos (hz i).1 (hz i).2) (sbC_pos h i.isLt)
+  rw [tri_logdet_lower (stickMap lo hi n) hlow x _ hd (fun i => ne_of_gt (hpos i))]
+  unfold sbLd
+  rw [sumTo_eq]
+  refine Finset.sum_congr rfl fun i _ => ?_
+  have hC := sbC_pos h i.isLt
+  rw [abs_of_pos (hpos i), Real.log_mul (ne_of_gt (mul_pos (hz i).1 (hz i).2)) (ne_of_gt hC),
+    Real.log_mul (ne_of_gt (hz i).1) (ne_of_gt (hz i).2), log_one_sub_sigm']
+  simp only [trans_log_real]
+  rw [sbFwd_eq _ i.isLt, sbZ_unclipped h i.isLt, Real.log_mul (ne_of_gt (hz i).1) (ne_of_gt hC),
+    logsigmoid_real]
+  show -(sbU n (ext x) i) + Real.log (sigm (sbU n (ext x) i)) + _ = _
+  ring
+
+/-- **stick_inv_fwd**: torch's inverse (`log y − log clamp(1 − cumsum y) + log offset`) undoes the forward
+map, coordinate by coordinate, wherever neither clipping is active -/
+theorem stick_inv_fwd {tiny : ℝ} (X : Nat → ℝ) (h : Unclipped lo hi n X) {i : Nat} (hi' : i < n)
+    (htiny : tiny ≤ cumprod1m (sbZ lo hi n X) i) :
+    sbInv tiny n (sbFwd lo hi n X) i = X i := by
+  unfold sbInv
+  simp only [trans_log_real]
+  rw [csum_sbFwd X i hi', sub_sub_cancel, clampMin_of_le htiny, cumprod1m_eq_sbC, sbFwd_eq X hi',
+    sbZ_unclipped h hi']
+  have hC := sbC_pos h hi'
+  have hz1 := sigm_pos (sbU n X i)
+  have hz2 : 0 < 1 - sigm (sbU n X i) := by linarith [sigm_lt_one (sbU n X i)]
+  rw [Real.log_mul (ne_of_gt hz1) (ne_of_gt hC), Real.log_mul (ne_of_gt hC) (ne_of_gt hz2)]
+  have := logit_sigm (sbU n X i)
+  have hu : sbU n X i = X i - Real.log (nat (n - i) : ℝ) := rfl
+  linarith
+
+/-- the image is a point of the simplex: the `n+1` coordinates sum to one -/
+theorem stick_sums_to_one (X : Nat → ℝ) (hn : 0 < n) :
+    csum (sbFwd lo hi n X) (n - 1) + sbFwd lo hi n X n = 1 := by
+  rw [csum_sbFwd X (n - 1) (by omega)]
+  have : sbFwd lo hi n X n = cumprod1m (sbZ lo hi n X) (n - 1) := by
+    unfold sbFwd
+    rw [if_neg (lt_irrefl n), if_neg (by omega), one_mul]
+  rw [this]; ring
+
+/-- non-vacuity: with clipping bounds outside `[0,1]` every point is unclipped -/
+example (X : Nat → ℝ) : Unclipped (-1) 2 3 X :=
+  fun m _ => ⟨by linarith [sigm_pos (sbU 3 X m)], by linarith [sigm_lt_one (sbU 3 X m)]⟩
+
+end stick
+
 end TTProps.C07Torch
